@@ -222,6 +222,7 @@ struct C02Delivery : Monitor {
 		if (recovery_b) {
 			uint64_t tf = w->T0 + (uint64_t)w->cfg["faults"].geti("t1_us");
 			if (w->cfg["faults"].gets("ref", "abs") == "abs") tf = std::max<uint64_t>(w->T0, (uint64_t)w->cfg["faults"].geti("t1_us"));   // faults during the handshake (C02 extended scope)
+			tf += (uint64_t)w->cfg["faults"].geti("settle_us");      // datagrams held back by up to this long are part of the trouble
 			uint64_t Tstart = tf + 60ull * 1000000;
 			for (auto &t : w->S.tasks) if (t->state == T_EXITED && (t.get() == w->srv || t.get() == w->clients[0].task)) {
 				char b[160]; snprintf(b, sizeof b, "%s exited at %.1fs (faults ended at %.1fs)", t->name.c_str(), t->t_exit / 1e6, tf / 1e6);
